@@ -488,6 +488,8 @@ int main(void)
         printf("sweep step=%u\n", i2);
         do_shmem(A, 0, 0);
       }
+    } else if (A && hwv_config_support_line(A, line)) {
+      ;
     } else if (A) {
       int r = hwv_config_line(A, line);
       if (r == 0) printf("unknown-command %s\n", line);
